@@ -110,7 +110,13 @@ class Model:
         self.statics = []               # (idx, prefix, dir_idx, fallback_rel|None) in order of addition
 
     def add_route(self, template, res_idx, suffix):
-        self.routes.append((template, parse_template(template), res_idx, suffix))
+        # the responders of a route are the ones the resource has when the route is added
+        self.routes.append((template, parse_template(template), res_idx, suffix, frozenset(self.resources[res_idx])))
+
+    def mutate_resource(self, res_idx, add=(), remove=()):
+        """The resource object gains / loses callable on_* attributes between two add_* calls.  Routes added
+        later see the new set; what routes added EARLIER do with it is not stated (they are skipped)."""
+        self.resources[res_idx] = (set(self.resources[res_idx]) | set(add)) - set(remove)
 
     def add_sink(self, idx, pattern, flags=0):
         self.sinks.append((idx, re.compile(pattern, flags)))
@@ -151,11 +157,13 @@ class Model:
         if method in META:
             return {'alts': [{'cls': '400-meta'}], 'masks': False, 'n_fallbacks': 0}
         matched = []
-        for template, segs, res_idx, suffix in self.routes:
+        for template, segs, res_idx, suffix, snapshot in self.routes:
             ok, kwargs = match_template(segs, path)
             if ok is None:
                 return None
             if ok:
+                if snapshot != frozenset(self.resources[res_idx]):
+                    return None         # resource changed after this route was added: undecided by the statement
                 matched.append((template, res_idx, suffix, kwargs))
         fallbacks = self.matching_fallbacks(path)
         if matched:
